@@ -16,10 +16,11 @@ def register(K):
         mode = args[1] if len(args) > 1 else kw.get("mode", eng.lit("r"))
         out = []
         ok = st.fork()
-        r = ok.alloc("file")
-        f = vref(r, cls="file")
-        ok.H["file.mode"] = z3.Store(ok.comp("file.mode", Str), r, mode.t)
-        ok.H["file.path"] = z3.Store(ok.comp("file.path", Val), r, box(eng.materialize(path, ok)))
+        r = ok.alloc("stream")
+        f = vref(r, cls="stream")
+        ok.H["stream.mode"] = z3.Store(ok.comp("stream.mode", Str), r, mode.t)
+        ok.H["stream.path"] = z3.Store(ok.comp("stream.path", Val), r, box(eng.materialize(path, ok)))
+        ok.H["stream.is_seekable"] = z3.Store(ok.comp("stream.is_seekable", Bool), r, z3.BoolVal(True))
         ok.log.append(("open", path, mode, f, getattr(node, "lineno", 0)))
         out.append((ok, f))
         bad = st.fork()
@@ -116,7 +117,7 @@ def register_streams(K):
     """binary streams (file objects, sys.stdin.buffer, BytesIO): content and position are ghost fields.
     Assumed contract of the stream protocol: read(n) returns the next <= n bytes and advances; seek/tell move/report the position."""
     from pyvc.sorts import Bytes
-    K.fieldsof("stream", content="bytes", position="int", written="bytes", is_seekable="bool")
+    K.fieldsof("stream", content="bytes", position="int", written="bytes", is_seekable="bool", mode="str", path="val")
     for nm in ("sys.stdin", "sys.stdout", "sys.stderr", "sys.stdin.buffer", "sys.stdout.buffer"):
         pass
 
